@@ -4,7 +4,12 @@ import core
 import families as fam
 
 PROP = "C06"
-IMPORTS = "C06.Model"
+IMPORTS = "C06.Model C06.Spec"
+PRELUDE = """
+(* the occluded inputs the model must receive, input after input, patch after patch *)
+Definition expected_queries (g : geom) (v : Qc) (xs : list (list Qc)) : list (list Qc) :=
+  xs ++ flat_map (fun x => map (occlude g v x) (patches g)) xs.
+"""
 RULE = ("random geometry (tabular / time series / image up to 6x7x3, every patch size and stride in 1..dim, scalar or "
         "per-axis), F-quad score with cross terms (non-additive), real-valued targets, batch sizes biased to "
         "{1,2,#masks-1,#masks,#masks+1,N,None}; distinct = different canonical JSON encoding; non-trivial = at least two "
@@ -68,9 +73,38 @@ def gen_case(rng, tier):
     return case
 
 
+def with_geometry(case, stride):
+    c = dict(case)
+    c["stride"] = stride
+    return c
+
+
+def gen_huge_case(rng, tier):
+    """inputs mixing ordinary dyadic values with features of magnitude 2^25 .. 2^27 and a small non-zero occlusion value:
+    only the occluded inputs handed to the model are compared (exactly): the patch must hold the occlusion value"""
+    c = gen_case(rng, tier)
+    c["v"] = rng.choice([0.5, -1.0, 1.25, 0.25])
+    for x in c["xs"]:
+        for i in range(len(x)):
+            if rng.random() < 0.4:
+                x[i] = rng.choice([-1, 1]) * 2.0 ** rng.randint(25, 27)
+    c["huge"] = True
+    c.pop("stride2", None)
+    return c
+
+
 def generate(rng, tier):
     n = 120 if tier == "quick" else 1500
-    return [gen_case(rng, tier) for _ in range(n)]
+    cases = [gen_case(rng, tier) for _ in range(n)]
+    for c in cases:
+        # re-use: a quarter of the cases change patch_stride through the public attribute and explain again
+        if rng.random() < 0.25:
+            g = geometry(c)
+            if c["kind"] == "tab":
+                c["stride2"] = rng.randint(1, g["d"])
+            else:
+                c["stride2"] = [rng.randint(1, g["h"]), rng.randint(1, g["w"])] if rng.random() < 0.5 else rng.randint(1, min(g["h"], g["w"]))
+    return cases + [gen_huge_case(rng, tier) for _ in range(12 if tier == "quick" else 150)]
 
 
 def nontrivial(case):
@@ -100,7 +134,7 @@ def run_impl(case):
     global _tf
     import tensorflow as tf
     from xplique.attributions import Occlusion
-    model = fam.FQuadNumpy(case["params"])
+    model = fam.FQuadNumpy(case["params"], record=bool(case.get("huge")))
     conv = (lambda a: tuple(a) if isinstance(a, list) else a)
     expl = Occlusion(model, batch_size=case["bs"], patch_size=conv(case["patch"]), patch_stride=conv(case["stride"]),
                      occlusion_value=case["v"])
@@ -110,7 +144,14 @@ def run_impl(case):
     out = np.asarray(out)
     if out.shape[0] != len(case["xs"]):
         raise AssertionError(f"explain returned {out.shape[0]} maps for {len(case['xs'])} inputs")
-    return dict(shape=list(out.shape), maps=[[float(v) for v in m.reshape(-1)] for m in out])
+    res = dict(shape=list(out.shape), maps=[[float(v) for v in m.reshape(-1)] for m in out])
+    if case.get("huge"):
+        res["queries"] = [[float(v) for v in q] for q in model.queries]
+    if case.get("stride2") is not None:
+        expl.patch_stride = conv(case["stride2"])          # public attribute, then the same object explains again
+        out2 = np.asarray(expl.explain(xs, ts))
+        res["maps2"] = [[float(v) for v in m.reshape(-1)] for m in out2]
+    return res
 
 
 def coq_geom(case):
@@ -127,7 +168,15 @@ def model_term(case):
 
 
 def coq_term(case, res):
-    return f"qlist2_eqb {model_term(case)} {core.cqlist2(res['maps'])}"
+    if case.get("huge"):
+        return (f"qlist2_eqb (expected_queries {coq_geom(case)} {core.cq(case['v'])} {core.cqlist2(case['xs'])}) "
+                f"{core.cqlist2(res['queries'])}")
+    t = f"qlist2_eqb {model_term(case)} {core.cqlist2(res['maps'])}"
+    if case.get("stride2") is not None:
+        if "maps2" not in res:
+            return "false"
+        t = f"({t} && qlist2_eqb {model_term(with_geometry(case, case['stride2']))} {core.cqlist2(res['maps2'])})"
+    return t
 
 
 def dump_term(case, res):
